@@ -20,6 +20,7 @@
   exactly the ones here.
 -/
 import RotoV.Lemmas.RegistrationOrigin
+import RotoV.Lemmas.RegistrationKind
 import RotoV.Generated.Keywords
 
 namespace RotoV.C18
@@ -97,6 +98,41 @@ theorem add_succeeds_iff (lex : Name → Lex) (st : St) (hw : WF st) (items : It
 theorem add_fails_iff (lex : Name → Lex) (st : St) (hw : WF st) (items : Items) :
     (∃ e, register Cfg.fixed lex st items = .err e) ↔ ¬ Accepts lex st items := by
   rw [register_err_iff lex hw, accepts_iff lex hw]
+
+/-! ## T2 with the error KIND -/
+
+/-- **T2, the kind of the error (`add_error_kind`).** For every library, lexer
+    verdict and well-formed runtime: when the registration is rejected, the KIND
+    of the `RegistrationError` names a defect the library really has
+    (`KindDefect`, clause by clause of `Accepts`): `invalidName` — a name is not a
+    valid non-keyword identifier; `nameTaken` — one of the five "pairwise
+    different and free" clauses fails (modules, types, functions and methods,
+    constants, imports); `typeTwice` — a Rust type is registered by two `type`
+    items or in the runtime already; `unregistered` — a signature, constant or
+    impl block mentions a type registered neither in the runtime nor by the
+    library; `nestedInImpl`, `emptyPath`, `noScope` — the API's structural
+    demands.  (Which defect is reported when a library has several depends on the
+    order of the items: passes stop at their first failing operation.) -/
+theorem add_error_kind (lex : Name → Lex) (st : St) (hw : WF st) (items : Items) (e : Err)
+    (h : register Cfg.fixed lex st items = .err e) : KindDefect lex st items e :=
+  register_err_kind lex hw items e h
+
+/-- every such defect is the failure of a clause of `Accepts` -/
+theorem kind_defect_refutes_accepts (lex : Name → Lex) (st : St) (items : Items) (e : Err)
+    (h : KindDefect lex st items e) : ¬ Accepts lex st items :=
+  fun a => accepts_no_kindDefect lex a e h
+
+/-- **T2 with the kind, converse for libraries with one kind of defect**: a
+    library that is not acceptable and has no defect of any kind but `k` is
+    rejected with an error of kind `k` — in whatever order its items stand. -/
+theorem add_error_kind_of_only_defect (lex : Name → Lex) (st : St) (hw : WF st) (items : Items) (k : Err)
+    (hna : ¬ Accepts lex st items) (honly : ∀ e, e ≠ k → ¬ KindDefect lex st items e) :
+    register Cfg.fixed lex st items = .err k := by
+  obtain ⟨e, he⟩ := (add_fails_iff lex st hw items).mpr hna
+  have hk := add_error_kind lex st hw items e he
+  by_cases hek : e = k
+  · rw [← hek]; exact he
+  · exact absurd hk (honly e hek)
 
 /-! ## T3 — reachable where declared -/
 
@@ -390,6 +426,30 @@ theorem order_indep_sequence (lex : Name → Lex) :
         | panic s => rw [hr'] at o; exact o.elim
       | panic s => rw [hr] at g; exact g.elim
 
+/- **T4 with the kind**, full statement: for `Shuffle items items'`, if the
+   library has defects of one kind only, both registrations report that kind.
+   Proved below as `order_indep_kind_partial` with the "one kind only" hypothesis
+   stated for BOTH orders: that `KindDefect` is invariant under `Shuffle` (the
+   closed-form tables `S1…S4` of a rejected library are defined through
+   insertions in item order) is not proved. -/
+theorem order_indep_kind_partial (lex : Name → Lex) (st : St) (hw : WF st) (items items' : Items) (k : Err)
+    (hs : Shuffle items items') (hna : ¬ Accepts lex st items)
+    (honly : ∀ e, e ≠ k → ¬ KindDefect lex st items e)
+    (honly' : ∀ e, e ≠ k → ¬ KindDefect lex st items' e) :
+    register Cfg.fixed lex st items = .err k ∧ register Cfg.fixed lex st items' = .err k := by
+  have h1 := add_error_kind_of_only_defect lex st hw items k hna honly
+  refine ⟨h1, ?_⟩
+  have o := order_indep lex st hw items items' hs
+  rw [h1] at o
+  cases h2 : register Cfg.fixed lex st items' with
+  | ok b => rw [h2] at o; exact o.elim
+  | panic s => rw [h2] at o; exact o.elim
+  | err e' =>
+    have hk := add_error_kind lex st hw items' e' h2
+    by_cases hek : e' = k
+    · rw [hek]
+    · exact absurd hk (honly' e' hek)
+
 /-! ## witnesses -/
 
 def lexV : Name → Lex := fun _ => ⟨some (some .ident), false, true⟩
@@ -581,6 +641,30 @@ example :
 example (st : St) : (st.insertImport [1] 2 ⟨[0], 2⟩).decls = st.decls ∧
     (st.insertImport [1] 2 ⟨[0], 2⟩).imports [] = st.imports [] :=
   ⟨rfl, by funext n; simp [St.insertImport]⟩
+
+def errKind {α} : Res α → Option Err | .err e => some e | _ => none
+theorem errKind_elim {α} {r : Res α} {e : Err} (h : errKind r = some e) : r = .err e := by
+  cases r <;> simp [errKind] at h; rw [h]
+
+/-- non-vacuity of `add_error_kind`: one library per kind (`decide` computes the kind the model reports;
+    the theorem then yields the defect) -/
+example : KindDefect lexV st0 (il [.type 1 7, .module 0 (il [.type 2 7])]) .typeTwice :=
+  add_error_kind lexV st0 (init_wf _ _) _ _ (errKind_elim (by decide))
+example : KindDefect lexV st0 (il [fn0 1 5, .module 1 .nil]) .nameTaken :=
+  add_error_kind lexV st0 (init_wf _ _) _ _ (errKind_elim (by decide))
+example : KindDefect lexV st0 (il [.function 1 [.list (.reg 7)] .unit 5]) .unregistered :=
+  add_error_kind lexV st0 (init_wf _ _) _ _ (errKind_elim (by decide))
+example : KindDefect lexV st0 (il [.type 1 7, .impl 7 (il [.module 2 .nil])]) .nestedInImpl :=
+  add_error_kind lexV st0 (init_wf _ _) _ _ (errKind_elim (by decide))
+example : KindDefect lexV st0 (il [.use [[]]]) .emptyPath :=
+  add_error_kind lexV st0 (init_wf _ _) _ _ (errKind_elim (by decide))
+example : KindDefect lexV st0 (il [fn0 1 5, .use [[1, 2]]]) .noScope :=
+  add_error_kind lexV st0 (init_wf _ _) _ _ (errKind_elim (by decide))
+/-- a library with two kinds of defect: the kind depends on the order (the functions pass stops at the first) -/
+example :
+    errKind (register Cfg.fixed lexV st0 (il [fn0 1 5, fn0 1 6, .function 2 [.reg 7] .unit 7])) = some .nameTaken ∧
+    errKind (register Cfg.fixed lexV st0 (il [.function 2 [.reg 7] .unit 7, fn0 1 5, fn0 1 6])) = some .unregistered := by
+  decide
 
 /-! ## the keyword table -/
 
